@@ -226,3 +226,150 @@ def which_alternative(stmt):
     if node.end != len(stmt.rstrip()) and node.end != len(stmt):
         return None
     return node.children[0].expr_name if node.children else None
+
+
+# ---------------------------------------------------------------------------------------
+# Statement templates with typed operand slots ({n} numeric, {s} string).  Each is a full
+# line body (may contain ':'), `after` lines close loops.  Used by C04/C05/C07/C10/C14.
+TEMPLATES = [
+    # name, body, after-lines
+    ("assign", "Z = {n}", []),
+    ("assign_arr", "M( {n} ) = {n}", []),
+    ("assign_arr2", "Q( {n} , {n} ) = 1", []),
+    ("assign_str", "Z$ = {s}", []),
+    ("assign_str_arr", "N$( {n} ) = {s}", []),
+    ("assign_sum", "Z = {n} + {n}", []),
+    ("assign_rhs_sub", "Z = M( {n} ) + 1", []),
+    ("if", 'IF {n} = 1 THEN PRINT "T"', []),
+    ("if_num", 'IF {n} THEN PRINT "T"', []),
+    ("if_str", 'IF {s} = "X" THEN PRINT "T"', []),
+    ("if_goto", "IF {n} > 1 THEN 100", []),
+    ("if_else", 'IF {n} = 1 THEN PRINT "T" ELSE PRINT "F"', []),
+    ("if_else_num", 'IF {n} THEN PRINT "T" ELSE PRINT "F"', []),
+    ("if_elseif", 'IF {n} = 1 THEN PRINT "T" ELSE IF {n} = 2 THEN PRINT "U" ELSE PRINT "F"', []),
+    ("if_then_stmt", "IF A = 1 THEN Z = {n}", []),
+    ("if_else_stmt", "IF A = 1 THEN Z = 1 ELSE Z = {n}", []),
+    ("if_elseif_stmt", "IF A = 1 THEN Z = 1 ELSE IF A = 2 THEN Z = {n} ELSE Z = {n}", []),
+    ("for", "FOR I = {n} TO {n} STEP {n}", ["NEXT I"]),
+    ("for2", "FOR I = 1 TO {n}", ["NEXT"]),
+    ("print", "PRINT {n} ; {s}", []),
+    ("print2", 'PRINT "V=" ; {n} , {n}', []),
+    ("print_at", "PRINT @ {n} , {s} ; {n}", []),
+    ("print_at0", "PRINT @ {n}", []),
+    ("print_tab", 'PRINT TAB( {n} ) ; "X"', []),
+    ("on_goto", "ON {n} GOTO 100 , 110", []),
+    ("on_gosub", "ON {n} GOSUB 100", []),
+    ("read_sub", "READ M( {n} )", ["DATA 1"]),
+    ("input_sub", "INPUT M( {n} )", []),
+    ("poke", "POKE {n} , {n}", []),
+    ("sound", "SOUND {n} , {n}", []),
+    ("cls", "CLS {n}", []),
+    ("set", "SET( {n} , {n} , {n} )", []),
+    ("reset", "RESET( {n} , {n} )", []),
+    ("width", "WIDTH {n}", []),
+    ("locate", "LOCATE {n} , {n}", []),
+    ("attr", "ATTR {n} , {n} , B , U", []),
+    ("attr0", "ATTR {n} , {n}", []),
+    ("palette", "PALETTE {n} , {n}", []),
+    ("hscreen", "HSCREEN {n}", []),
+    ("hcls", "HCLS {n}", []),
+    ("hcolor", "HCOLOR {n} , {n}", []),
+    ("hcolor1", "HCOLOR {n}", []),
+    ("hcircle", "HCIRCLE ( {n} , {n} ) , {n}", []),
+    ("hcircle_c", "HCIRCLE ( {n} , {n} ) , {n} , {n}", []),
+    ("hellipse", "HCIRCLE ( {n} , {n} ) , {n} , {n} , {n}", []),
+    ("hellipse_nc", "HCIRCLE ( {n} , {n} ) , {n} , , {n}", []),
+    ("harc", "HCIRCLE ( {n} , {n} ) , {n} , {n} , {n} , {n} , {n}", []),
+    ("harc_nc", "HCIRCLE ( {n} , {n} ) , {n} , , {n} , {n} , {n}", []),
+    ("hline", "HLINE ( {n} , {n} ) - ( {n} , {n} ) , PSET", []),
+    ("hline_b", "HLINE ( {n} , {n} ) - ( {n} , {n} ) , PRESET , B", []),
+    ("hline_bf", "HLINE ( {n} , {n} ) - ( {n} , {n} ) , PSET , BF", []),
+    ("hline_rel", "HLINE - ( {n} , {n} ) , PSET", []),
+    ("hline_rel_bf", "HLINE - ( {n} , {n} ) , PRESET , BF", []),
+    ("hset", "HSET ( {n} , {n} )", []),
+    ("hset3", "HSET ( {n} , {n} , {n} )", []),
+    ("hreset", "HRESET ( {n} , {n} )", []),
+    ("hpaint", "HPAINT ( {n} , {n} )", []),
+    ("hpaint1", "HPAINT ( {n} , {n} ) , {n}", []),
+    ("hpaint2", "HPAINT ( {n} , {n} ) , {n} , {n}", []),
+    ("hprint_s", "HPRINT ( {n} , {n} ) , {s}", []),
+    ("hprint_n", "HPRINT ( {n} , {n} ) , {n}", []),
+    ("hdraw", "HDRAW {s}", []),
+    ("play", "PLAY {s}", []),
+    ("hbuff", "HBUFF {n} , {n}", []),
+    ("hget", "HGET ( {n} , {n} ) - ( {n} , {n} ) , {n}", []),
+    ("hput", "HPUT ( {n} , {n} ) - ( {n} , {n} ) , {n} , PSET", []),
+    ("hput_or", "HPUT ( {n} , {n} ) - ( {n} , {n} ) , {n} , OR", []),
+    ("fn_button", "Z = BUTTON( {n} )", []),
+    ("fn_joystk", "Z = JOYSTK( {n} ) + 1", []),
+    ("fn_point", "Z = POINT( {n} , {n} ) + 1", []),
+    ("fn_int", "Z = INT( {n} ) + 1", []),
+    ("fn_val", "Z = VAL( {s} ) + 1", []),
+    ("fn_str", "Z$ = STR$( {n} ) + {s}", []),
+    ("fn_hex", 'Z$ = "H" + HEX$( {n} )', []),
+    ("fn_instr", "Z = INSTR( {n} , {s} , {s} ) + 1", []),
+    ("fn_string", 'Z$ = STRING$( {n} , {s} ) + "!"', []),
+    ("fn_left", "Z$ = LEFT$( {s} , {n} ) + RIGHT$( {s} , {n} ) + MID$( {s} , {n} , {n} )", []),
+    ("fn_len", "Z = LEN( {s} ) + ASC( {s} )", []),
+    ("fn_chr", "Z$ = CHR$( {n} )", []),
+    ("fn_abs", "Z = ABS( {n} ) + SGN( {n} )", []),
+]
+
+# operand shapes: name -> text ; V/W numeric scalars, V$ string scalar, M( ) numeric array, N$( ) string array
+NUM_SHAPES = [
+    ("lit", "7"),
+    ("var", "V"),
+    ("elem", "M( 2 )"),
+    ("sum", "V + 1"),
+    ("neg", "- V"),
+    ("paren", "( V + W ) * 2"),
+    ("builtin", "ABS( V )"),
+    ("conv", "INT( V )"),
+    ("conv_sum", "INT( V ) + 1"),
+    ("conv_in_builtin", "ABS( INT( V ) )"),
+    ("conv_in_conv", "INT( INT( V ) / 2 )"),
+    ("conv_elem", "M( INT( V ) )"),
+    ("dev", "JOYSTK( 0 )"),
+    ("two_conv", "INT( V ) + VAL( V$ )"),
+    ("len", "LEN( V$ )"),
+    ("hex", "&HFF"),
+]
+STR_SHAPES = [
+    ("lit", '"X"'),
+    ("var", "V$"),
+    ("elem", "N$( 2 )"),
+    ("cat", 'V$ + "Y"'),
+    ("builtin", "LEFT$( V$ , 1 )"),
+    ("conv", "STR$( V )"),
+    ("conv_in_builtin", "LEFT$( STR$( V ) , 2 )"),
+    ("conv_cat", 'HEX$( V ) + "Z"',),
+    ("inkey", "INKEY$"),
+    ("string", 'STRING$( 2 , "Q" )'),
+    ("chr", "CHR$( 65 )"),
+]
+
+
+def fill(template_body, shapes):
+    """Replace the i-th slot by shapes[i] (list of texts)."""
+    out = []
+    it = iter(shapes)
+    pos = 0
+    for m in re.finditer(r"\{[ns]\}", template_body):
+        out.append(template_body[pos:m.start()])
+        out.append(next(it))
+        pos = m.end()
+    out.append(template_body[pos:])
+    return "".join(out)
+
+
+def slots(template_body):
+    return re.findall(r"\{([ns])\}", template_body)
+
+
+def template_program(body, after, prelude=True):
+    lines = []
+    if prelude:
+        lines += ["DIM M( 12 ) , N$( 5 ) , Q( 3 , 3 )", 'V = 3 : W = 4 : V$ = "AB" : A = 1']
+    lines.append(body)
+    lines += list(after)
+    return program_for(lines, start=10, step=10)
